@@ -92,7 +92,7 @@ func indexTable(p *lang.Process, params []string) error {
 	marshaller := func(s []string) []byte {
 		b, err3 := lang.MarshalData(p, types.Json, s)
 		if err3 != nil {
-			close(cRecords)
+			// cRecords belongs to the goroutine reading stdin, which closes it
 			status <- err3
 		}
 		return b
